@@ -643,7 +643,10 @@ def _canonical_candidates(op, fields):
         return [(["cat", "tu"], "cat")], "cat." + op[1]
     if k in ("get", "tolist", "write", "str", "item", "len", "iter"):
         own = k if k != "get" else "get(%s)" % op[1]
-        return [(["get", names[0]], "get")], own
+        cands = [(["get", names[0]], "get")]
+        if k in ("iter", "item", "str", "write"):
+            cands.append((["tolist"], "tolist"))   # the ops that materialise the whole table
+        return cands, own
     if k in ("replace", "set"):
         own = "%s%s(%s)" % (k, "+1" if op[2] == "self" else "", op[1])
         c = []
@@ -920,8 +923,9 @@ def plan(tier):
 
 def run(tier="quick", seed=0):
     col = Collector(PID, tier, seed,
-                    "every program (sequence of public ops: len, get f, t[slice|mask|int list], t[i], concatenate tu/ut/tt, "
-                    "swap, replace(f=array), replace(f=t.f+1), t.f=array, tolist, str, write) of the stated lengths over the "
+                    "every program (sequence of public ops: len, get f, t[slice|mask|int list], t[i], concatenate tu/ut/tt/tut, "
+                    "swap, replace(f=array), replace(f=t.f+1), t.f=array, tolist, iter, str, write) of the stated lengths "
+                    "(plus the 4-op family [X, swap, Y, concatenate] with state on both operands) over the "
                     "stated alphabet, run in lock-step on lazy=True and lazy=False reads of the same file; every step and a "
                     "final full observation (len, every field, tolist, written bytes) compared; per format x {whole read, "
                     "chunked read}; longer programs sampled with the seed.  distinct = distinct (format, read mode, "
